@@ -19,6 +19,37 @@ HIST = {
  "C08-1": "missed at first (finality was only checked at the end of the run) -> closedNow at every Close return",
  "C08-2": "missed at first -> gracefulNow at every GracefulClose return",
 }
+HIST.update({
+ "C02-3":"caught on the first run","C02-4":"caught on the first run",
+ "C03-3":"caught on the first run (patch re-written against the tree after the C20 fixes)",
+ "C03-4":"missed at first (ticks only from Connected with a fresh peer) -> tick pre-state also Disconnected with symbolic silence",
+ "C04-3":"missed at first (no harness kept the connectivityChecks loop alive across a Restart; the clock never jumped) -> verifC04DeadlineRearm with verifAdvanceClock",
+ "C05-3":"missed at first (conflicting requests only came from known remotes) -> unknown-source choice",
+ "C06-4":"missed at first (candidates were never started; sockets never failed to close) -> started candidates, failing Close",
+ "C07-3":"missed at first (pair nomination flags were constants) -> all pair bookkeeping symbolic",
+ "C09-3":"caught on the first run",
+ "C09-4":"missed by C09 at first (caught by C06 once candidates outside the configured network types existed) -> relay body also with NetworkTypes=[udp6]",
+ "C12-3":"missed at first (3-4 operations cannot reach A-B-A) -> verifC12LastWriter",
+ "C12-4":"missed at first (reads always had room) -> verifC12ShortBuffer",
+ "C13-4":"missed at first (fake socket had no AddrPort methods) -> AddrPort-capable socket, handles of both flavours",
+ "C14-4":"strengthened before the run (oversized frame followed by frame-like bytes)",
+ "C15-3":"strengthened before the run (IPv4 in 16-byte form)",
+ "C15-4":"strengthened before the run; first version blocked for ever (exit 2) -> queue occupancy asserted before reading",
+ "C16-4":"strengthened before the run (resolved mDNS host candidates)",
+ "C17-4":"missed at first (only the foundation's own inputs were symbolic) -> every other field symbolic",
+ "C18-3":"missed at first (no srflx harness in C18) -> verifC18SrflxBase",
+ "C19-3":"missed at first (externals never equal to the local address) -> identity entry",
+ "C19-4":"missed at first (legacy NAT1To1IPs validator not covered) -> verifC19Legacy",
+ "C11-3":"missed by the first notifier harness (single graceful Close) -> verifC11Reselect closes plainly, then gracefully",
+ "C11-4":"missed at first (events were pairwise distinct) -> verifC11Reselect (A, B, A)",
+ "C01-3":"missed at first -> lemma (T): a request on any not-yet-valid pair triggers a check",
+ "C01-4":"missed at first -> verifC01LateResponse",
+ "C08-3":"outside C08's topology (no TCP candidates); caught by C15's verifC15CloseWithFullQueue (meta records the C15 run)",
+ "C08-4":"missed at first (no scenario had a selected pair, so Write took the slow path) -> connected-agent scenario",
+ "C01-1":"missed by the bounded two-agent run (needs ~9 specific deliveries/losses) -> step lemma N2 (verifC01NominationLemmas); patch re-written against the tree after the C20 fixes",
+ "C20-2":"caught on the first run (patch re-written against the tree after the C20 fixes)",
+ "C03-2":"missed at first -> deferred-plain-nomination lemmas + verifC03DeferredPlain; applies to /repo 9897c5d only (see meta.json)",
+})
 rows=[]
 for d in sorted(glob.glob('/verif/seeded/*/meta.json')):
     name=os.path.basename(os.path.dirname(d))
